@@ -29,6 +29,17 @@ func reqFieldSourcesCtx(v ssa.Value, ctx dctx, req *ssa.Parameter) map[string]bo
 		if root == ssa.Value(req) && len(p) > 0 {
 			out[strings.Join(p, ".")] = true
 		}
+		// methods of url.URL that read several fields
+		if call, ok := x.(*ssa.Call); ok {
+			if n := calleeName(call); n == "(*net/url.URL).EscapedPath" || n == "(*net/url.URL).RequestURI" || n == "(*net/url.URL).String" {
+				if root, p := ctxFieldPath(callArgs(call)[0], cx); root == ssa.Value(req) && len(p) == 1 && p[0] == "URL" {
+					out["URL.Path"], out["URL.RawPath"] = true, true
+					if n != "(*net/url.URL).EscapedPath" {
+						out["URL.RawQuery"], out["URL.ForceQuery"] = true, true
+					}
+				}
+			}
+		}
 		// control dependence through the merge of constant alternatives (scheme := "http"; if r.TLS != nil {...})
 		return false
 	})
@@ -122,6 +133,7 @@ func checkC02(c *Ctx, r *Report) {
 		"R1 the key builder reads scheme (TLS), Method, Host, URL.Path and URL.RawQuery of the request and all five reach the hashed string",
 		"R2 the components are framed injectively: in the single format expression every client-controlled component except possibly the last is quoted/escaped (a raw join would let a separator move across a boundary)",
 		"R3 Host passes a case fold; the path passes path.Clean and the trailing-slash distinction that Clean drops is restored under strings.HasSuffix(original path, \"/\"); Method and RawQuery reach the key unmodified",
+		"R6 the path component of the key is the escaped path (EscapedPath / RawPath), so an encoded slash is not a separator",
 		"R5 the key names what is fetched: the request fields feeding the key (besides method and transport) are exactly those the upstream target URL is built from in changeRequestToTarget (Host, URL.Path, URL.RawQuery)",
 		"R4 package proxy builds a key only by MakeFromRequest, once per request; every key handed to the cache interface and to singleflight derives from that one call on the same request",
 	}
@@ -225,9 +237,45 @@ func checkC02(c *Ctx, r *Report) {
 			r.Check(cleaned, "C02.R3", "path passes a dot-segment / duplicate-slash remover", c.Pos(f.Pos()), "path.Clean", "path reaches the key without path.Clean: /a/../b and /b get different entries")
 			folded := calls["strings.ToLower"] || calls["strings.ToUpper"]
 			r.Check(!folded, "C02.R3", "path case is preserved", c.Pos(f.Pos()), "no case fold on the path", "the path is case-folded: /A and /a share an entry")
+			// the path keyed is the path as spelled on the wire: with the decoded URL.Path an encoded slash
+			// (%2F) becomes a separator and /a%2Fb is answered from the entry of /a/b
+			escaped := calls["(*net/url.URL).EscapedPath"] || s["URL.RawPath"]
+			r.Check(escaped, "C02.R6", "the path component is the escaped path", c.Pos(f.Pos()), "URL.EscapedPath() / RawPath", "the key is built from the percent-decoded URL.Path: /a%2Fb, /a%2F../b and /p%2F%2Fq are keyed like /a/b, /b and /p/q although they are different paths (no dot-segment or duplicate slash involved)")
 			if calls["path.Clean"] {
 				// trailing slash restore: operand depends (phi) on HasSuffix(r.URL.Path, "/") and one edge appends "/"
+				// the suffix tests that decide whether "/" is appended again: strings.HasSuffix(original path, sfx),
+				// directly in the condition or inside a same-package predicate the condition calls
+				type sfxTest struct {
+					sfx string
+					arg ssa.Value
+					ctx dctx
+				}
+				suffixTests := func(leaf ssa.Value, cx dctx) []sfxTest {
+					var out []sfxTest
+					call, ok := leaf.(*ssa.Call)
+					if !ok {
+						return nil
+					}
+					if calleeName(call) == "strings.HasSuffix" {
+						if sfx, ok := constString(call.Call.Args[1]); ok {
+							out = append(out, sfxTest{sfx, call.Call.Args[0], cx})
+						}
+						return out
+					}
+					if g := helperBody(call); g != nil {
+						inner := append(append(dctx{}, cx...), call)
+						eachInstr(g, func(in ssa.Instruction) {
+							if c2, ok := in.(*ssa.Call); ok && calleeName(c2) == "strings.HasSuffix" {
+								if sfx, ok := constString(c2.Call.Args[1]); ok {
+									out = append(out, sfxTest{sfx, c2.Call.Args[0], inner})
+								}
+							}
+						})
+					}
+					return out
+				}
 				restored := false
+				dotForms := map[string]bool{}
 				derivesFromDeep(op, nil, func(x ssa.Value, cx dctx) bool {
 					phi, ok := x.(*ssa.Phi)
 					if !ok {
@@ -245,21 +293,34 @@ func checkC02(c *Ctx, r *Report) {
 						return false
 					}
 					for _, l := range condLeaves(condOfPhi(phi)) {
-						if call, ok := l.(*ssa.Call); ok && calleeName(call) == "strings.HasSuffix" {
-							if sfx, ok := constString(call.Call.Args[1]); ok && sfx == "/" {
-								if reqFieldSourcesCtx(call.Call.Args[0], cx, req)["URL.Path"] && !callsInDerivationCtx(call.Call.Args[0], cx)["path.Clean"] {
-									restored = true
-								}
+						for _, t := range suffixTests(l, cx) {
+							onOriginal := reqFieldSourcesCtx(t.arg, t.ctx, req)["URL.Path"] && !callsInDerivationCtx(t.arg, t.ctx)["path.Clean"]
+							if !onOriginal {
+								continue
 							}
+							if t.sfx == "/" {
+								restored = true
+							}
+							dotForms[t.sfx] = true
 						}
 					}
 					return false
 				})
 				r.Check(restored, "C02.R3", "trailing slash survives path.Clean", c.Pos(f.Pos()), "\"/\" is re-appended under strings.HasSuffix(original path, \"/\")", "path.Clean drops the trailing slash and nothing restores it: /dir/ is answered from the entry of /dir")
+				// removing a final "." or ".." segment leaves a path that ends in "/" (RFC 3986 5.2.4): /dir/. and /dir/sub/..
+				// name /dir/, not /dir
+				r.Check(dotForms["/."] && dotForms["/.."], "C02.R3", "a trailing dot-segment keeps the slash it stands for", c.Pos(f.Pos()), "\"/\" is also re-appended for paths ending in \"/.\" and \"/..\"", "the trailing-slash restoration looks only at a literal final \"/\": /dir/. and /dir/sub/.. (which name /dir/ after dot-segment removal) are keyed as /dir, so they share the entry of /dir and not that of /dir/")
 			}
 		}
 	}
 	r.Floor("C02.R2", len(ops), 5, "key components")
+	nR3 := 0
+	for _, o := range r.Obligs {
+		if o.Rule == "C02.R3" {
+			nR3++
+		}
+	}
+	r.Floor("C02.R3", nR3, 6, "normalisation obligations (host fold, method/query untouched, path clean / case / slash restore)")
 
 	// ---- R5: the key names the resource that is fetched. The request fields the key is built from
 	// (apart from method and transport) are exactly the fields the upstream target URL is built from.
@@ -296,6 +357,9 @@ func checkC02(c *Ctx, r *Report) {
 		}
 		delete(target, "URL.Fragment") // never sent to the origin
 		delete(target, "URL")
+		delete(keyS, "URL")
+		delete(target, "URL.ForceQuery") // a bare "?" does not change the query string ("" in both cases)
+		delete(keyS, "URL.ForceQuery")
 		var onlyKey, onlyTarget []string
 		for k := range keyS {
 			if !target[k] {
